@@ -20,7 +20,11 @@ static int wire_direction(const FungPair& p, size_t pi, const TCtx& X, const TCt
   for (int ci = 0; ci < nvals; ci++) {
     if (args().only_case >= 0 && args().only_case != ci) continue;
     Rng r = case_rng(std::string(p.a) + "|" + p.b + "|" + dir, (uint64_t)ci, 9);
-    Gen g(r); Val v = g.gen(X.sch);
+    // half of the values of a documented pair are generated on the *other* type's schema (equal value-tree shapes), so that
+    // capacities and fixed counts of the destination are hit exactly instead of by luck
+    Gen g(r); Val v;
+    if (p.documented && (ci & 1)) { Val vy = g.gen(Y.sch); Enc ey; RefEncode(Y.sch, vy, ey); Val vx; DecResult dx = RefDecode(X.sch, ey.out.data(), ey.out.size(), &vx, nullptr); if (dx.cat == Cat::OK && dx.consumed == ey.out.size()) v = vx; else v = g.gen(X.sch); }
+    else v = g.gen(X.sch);
     void* xo = X.t->create(); X.t->from_val(v, xo); Val xv = X.t->to_val(xo);
     Sink s; s.init(W_LOG, SIZE_MAX); auto ws = X.t->write(s, xo); X.t->destroy(xo);
     std::string cd = case_desc(std::string(p.a) + " ~ " + p.b, ci, dir, J().s("rule", p.rule).s("value", str(xv).substr(0, 160)).s("bytes", hex(s.log.data, 120)).str());
